@@ -1836,3 +1836,117 @@ def rule_name_sibling(ctx):
     r.floor = 2
     r.check_floor()
     return r
+
+
+# ------------------------------------------------------------------------------------------------------------------------------
+# ACTIVE-CLEARED: a pending ("active") mapping is retired whether or not its text turned out to be empty
+
+def _upvar_of(m, e):
+    """name of the captured variable an expression / place denotes (through derefs and references), or None"""
+    x = e
+    while isinstance(x, tuple) and x and x[0] in ('deref', 'ref', 'cast'):
+        x = x[1]
+    if isinstance(x, tuple) and x and x[0] == 'upvar':
+        return x[2]
+    return None
+
+
+def rule_active_cleared(ctx):
+    f = ctx.facts()
+    r = RuleResult('ACTIVE-CLEARED', 'a splitter that remembers an "active" mapping and delivers its text when the next segment arrives '
+                                     'retires that mapping on both outcomes of the "is the text empty" test: the state it tests before '
+                                     'delivering is reset on every path that leaves the delivery region (a zero-width segment delivers no '
+                                     'text, but must not stay active past the segment that closes it)')
+    ol = anchors.adt_by_name(f, 'OriginalLocation')['path']
+    n = 0
+    for m in f.body_list:
+        if m.promoted is not None or m.d['kind'] != 'Closure':
+            continue
+        ups = {u['n']: u for u in (m.d.get('upvars') or [])}
+        state_ty = {k for k, u in ups.items() if u.get('mut') and (u['ty'] == 'bool' or (u['ty'].startswith('std::option::Option<') and
+                                                                                       'OriginalLocation' in u['ty']))}
+        if not state_ty:
+            continue
+        dom = m.dom()
+        for pt, t, kind, ops in callback_calls(m):
+            if kind != 'chunk' or len(ops) < 2:
+                continue
+            # the delivered mapping's `original` comes from a captured Option<OriginalLocation> (the remembered mapping)
+            me = ops[1]
+            remembered = {x[2] for x in walk(me) if isinstance(x, tuple) and x and x[0] == 'upvar' and x[2] in ups
+                          and 'OriginalLocation' in ups[x[2]]['ty'] and ups[x[2]]['ty'].startswith('std::option::Option<')}
+            if not remembered:
+                continue
+            E = pt[0]
+            # switches that dominate the delivery
+            doms = [d for d in dom.get(E, set()) if m.term(d)['k'] == 'switch']
+            states, empt = set(), []
+            for d in doms:
+                de = m.expr_of_operand(m.term(d)['d'])
+                for x in walk(de):
+                    if isinstance(x, tuple) and x and x[0] == 'upvar' and x[2] in state_ty:
+                        states.add((x[2], d))
+                if any(isinstance(x, tuple) and x and x[0] == 'call' and x[1].rsplit('::', 1)[-1] == 'is_empty' for x in walk(de)):
+                    empt.append(d)
+            if not states or not empt:
+                continue
+            D = max(empt, key=lambda d_: len(dom.get(d_, ())))          # the innermost emptiness test above the delivery
+            for X, tst in sorted(states):
+                if tst in dom.get(D, set()) or tst == D:
+                    pass
+                else:
+                    continue
+                # region: blocks dominated by the successor of the state test that leads to the delivery
+                tt = m.term(tst)
+                succs = [tb for _, tb in tt['targets']] + [tt['otherwise']]
+                entry = [sb for sb in succs if sb == E or sb in dom.get(E, set())]
+                if len(entry) != 1:
+                    continue
+                region = {bb for bb in range(len(m.blocks)) if bb == entry[0] or entry[0] in dom.get(bb, set())}
+
+                def clears(bb):
+                    for s in m.stmts(bb):
+                        if s['k'] == 'assign' and _upvar_of(m, m.expr_of_place(s['p'])) == X:
+                            rv = s['r']
+                            if rv['k'] == 'use' and rv['o'].get('k') == 'const' and rv['o'].get('bool') is False:
+                                return True
+                            if rv['k'] == 'agg' and rv.get('variant') == 'None':
+                                return True
+                    tm = m.term(bb)
+                    if tm['k'] == 'call' and (tm.get('callee') or {}).get('name') == 'take' and tm['args'] and \
+                            _upvar_of(m, m.expr_of_operand(tm['args'][0])) == X:
+                        return True
+                    return False
+                bad = None
+                for sb in m.succs(D):
+                    if m.is_cleanup(sb):
+                        continue
+                    seen, work = set(), [sb]
+                    while work and bad is None:
+                        bb = work.pop()
+                        if bb in seen:
+                            continue
+                        seen.add(bb)
+                        if bb not in region:
+                            bad = (sb, bb)
+                            break
+                        if clears(bb):
+                            continue
+                        tm = m.term(bb)
+                        if tm['k'] == 'return':
+                            bad = (sb, bb)
+                            break
+                        work.extend(x for x in m.succs(bb) if not m.is_cleanup(x))
+                    if bad:
+                        break
+                n += 1
+                r.site('%s: active state `%s` retired on both outcomes of the emptiness test' % (m.path, X), t['s'], 'ok' if not bad else 'violation')
+                if bad:
+                    r.violation('%s:%s' % (m.path, X), t['s'], m.path,
+                                'the remembered mapping is delivered only when its text is not empty, and on the other outcome the state '
+                                '`%s` that marks it active is not reset before the delivery region is left: a zero-width segment (duplicate '
+                                'column, end of line) stays active, and the text after the unmapped segment that closes it is attributed '
+                                'to it' % X)
+    r.floor = 1
+    r.check_floor()
+    return r
